@@ -22,7 +22,7 @@ ARCHES = ("x86", "mips", "ppc", "aarch64")
 CFGN = "il::control_flow_graph::ControlFlowGraph::"
 
 
-FLOOR_R2 = {"x86": 100, "mips": 70, "ppc": 25, "aarch64": 40}
+FLOOR_R2 = {"x86": 100, "mips": 70, "ppc": 25, "aarch64": 30}
 FLOOR_R4 = {"x86": 80, "mips": 60, "ppc": 20, "aarch64": 20}
 
 
@@ -41,8 +41,9 @@ def shape_runs(db):
                 runs[h] = None
     # helper functions that are not handlers themselves (plumbing), analysed standalone with symbolic parameters
     extra = [k for k in db.hir.keys() if k.startswith("translator::") and "::{closure#" not in k and "::tests" not in k
-             and "test::" not in k and k not in runs and db.hir.file_of(k).endswith(
-                 ("semantics.rs", "mode.rs", "x86register.rs", "register.rs")) and db.hir[k].get("dk") in ("Fn", "AssocFn")]
+             and "test::" not in k and k not in runs and "/translator/" in "/" + db.hir.file_of(k) and
+             not db.hir.file_of(k).endswith(("/translator/mod.rs", "/translator/options.rs")) and
+             not k.endswith("::translate_block") and db.hir[k].get("dk") in ("Fn", "AssocFn")]
     for k in extra:
         try:
             runs[k] = sh.run(k)
